@@ -417,6 +417,17 @@ func classifyMapRange(info *types.Info, rs *ast.RangeStmt, stack []ast.Node) str
 	if commutativeBody(info, rs) {
 		return "commutative"
 	}
+	// the body leaves the loop unconditionally at its end: the loop takes ONE entry, whichever the runtime yields first
+	if n := len(rs.Body.List); n > 0 {
+		switch last := rs.Body.List[n-1].(type) {
+		case *ast.BranchStmt:
+			if last.Tok == token.BREAK {
+				return "arbitrary-pick"
+			}
+		case *ast.ReturnStmt:
+			return "arbitrary-pick"
+		}
+	}
 	return "order-sensitive"
 }
 
